@@ -29,6 +29,14 @@ def run(ctx, model_ok):
     if ctx.driver_ok:
         from corr import trimesh_family as _tf
         ctx.cov["correspondence_trimesh_inside"] = _tf.run_inside_stream(ctx, ctx.scale(150, 5000))
+        from corr import selfint_family as _sf
+        ss = _sf.run_selfint_stream(ctx, ctx.scale(300, 8000))
+        ctx.cov["evaluations"] += ss["segfacet_rows"] + ss["selfint_rows"]
+        ctx.cov["traces_validated_against_impl"] += ss["segfacet_rows"] + ss["selfint_rows"]
+        ctx.cov["samples"] += ss.pop("samples")
+        ctx.cov["correspondence_selfint"] = ss
+        ctx.cov["rule"] += ("; selfint: segments_intersect_facets (float64 and float32 call, adversarial exact rows + random rows) and get_intersecting_triangles "
+                            "(small meshes, scales 1e-7..1e4, r / r_factor / eps varied) vs Model/MeshIntersect.lean in emulated float32: verdicts, index sets exact, query radius bit for bit")
     budget = 4 if len(ctx.broken) else 1
     fails, ost = oracle.sweep(ctx, ctx.scale(16, 600) * budget)
     ctx.failing += fails
@@ -38,8 +46,13 @@ def run(ctx, model_ok):
     ctx.cov.setdefault("samples", [ost])
     ctx.cov["not_shown"] = ["that the ray test (mask_inside_trimesh / is_facet_inwards; ported, tied bit-for-bit by the trimesh-inside stream, shown independent of unit, "
                             "position and face order) equals the geometric inside predicate of a closed surface — it does not on the planes through the ray start and an edge "
-                            "(Props/C02 trimesh_ray_test_misses_interior_point) —, and the self-intersection test; hence 'consistent => all outwards' "
-                            "(needs a correct seed verdict and the orientability of closed non-self-intersecting surfaces): permutation/flip/derived-mesh oracle only"]
+                            "(Props/C02 trimesh_ray_test_misses_interior_point); hence 'consistent => all outwards' "
+                            "(needs a correct seed verdict and the orientability of closed non-self-intersecting surfaces): permutation/flip/derived-mesh oracle only",
+                            "check_selfintersecting (ported, tied by the selfint stream): in exact arithmetic sound (segfacet_sound), reindexed by face permutations, "
+                            "translation invariant, covariant under a common factor on lengths AND eps; NOT complete — crossings through an edge/vertex of the other facet, "
+                            "end points within eps of the plane, facet pairs beyond 1.5 x the largest corner distance are never reported (Stella octangula, two spikes: "
+                            "self-intersecting closed meshes reported clean); NOT unit invariant (absolute eps = 1e-6: misses everything below ~1e-6 size, flags valid closed "
+                            "meshes from ~1e2 size on through float32 noise); float32 rounding itself is modelled bit for bit but no theorem is about it"]
 
 
 def replay(ctx, payload):
